@@ -65,7 +65,8 @@ class StaticCondensation(Module):
     def _response(self, A):
         self.n = np.shape(A)[0]
         self.module_LinSolve.sig_in[0].state = A[self.f, ...][..., self.f]
-        self.module_LinSolve.sig_in[1].state = A[self.f, ...][..., self.m].todense()
+        Afm = A[self.f, ...][..., self.m]
+        self.module_LinSolve.sig_in[1].state = Afm.toarray() if sps.issparse(Afm) else Afm
         self.module_LinSolve.response()
         self.X = self.module_LinSolve.sig_out[0].state
         self.Amf = A[self.m, ...][..., self.f]
@@ -78,7 +79,8 @@ class StaticCondensation(Module):
         # Left factor [I; -(A_mf A_ff^-1)^T], which equals C only for symmetric matrices
         Cl = np.zeros((self.n, len(self.m)), dtype=float)
         Cl[self.m, ...] = np.eye(len(self.m))
-        Cl[self.f, ...] = -self.module_LinSolve.solver.solve(np.asarray(self.Amf.T.todense()), trans='T')
+        Afm_t = self.Amf.T.toarray() if sps.issparse(self.Amf) else self.Amf.T
+        Cl[self.f, ...] = -self.module_LinSolve.solver.solve(Afm_t, trans='T')
         return Cl @ dfdB @ C.T if isinstance(dfdB, DyadCarrier) else DyadCarrier(list(Cl.T), list(np.asarray(dfdB @ C.T)))
 
 
@@ -158,13 +160,13 @@ class SystemOfEquations(Module):
 
         # solve
         self.module_LinSolve.sig_in[0].state = Aff
-        self.module_LinSolve.sig_in[1].state = bf - self.Afp * xp
+        self.module_LinSolve.sig_in[1].state = bf - self.Afp @ xp
         self.module_LinSolve.response()
         xf = self.module_LinSolve.sig_out[0].state
 
         # set output
         self.x[self.f, ...] = xf
-        b[self.p, ...] = self.Apf * xf + self.App * xp
+        b[self.p, ...] = self.Apf @ xf + self.App @ xp
 
         return self.x, b
 
@@ -174,7 +176,7 @@ class SystemOfEquations(Module):
         if dgdx is not None:
             adjoint_load += dgdx[self.f, ...]
         if dgdb is not None:
-            adjoint_load += self.Apf.T * dgdb[self.p, ...]
+            adjoint_load += self.Apf.T @ dgdb[self.p, ...]
 
         lam = np.zeros_like(self.x)
         lamf = -1.0 * self.module_LinSolve.solver.solve(adjoint_load, trans='T')
@@ -193,14 +195,14 @@ class SystemOfEquations(Module):
         dgdbf = np.zeros_like(adjoint_load)
         dgdup = np.zeros_like(self.x[self.p, ...])
         dgdbf -= lam[self.f, ...]
-        dgdup += self.Afp.T * lam[self.f, ...]
+        dgdup += self.Afp.T @ lam[self.f, ...]
 
         if dgdx is not None:
             dgdup += dgdx[self.p, ...]
 
         if dgdb is not None:
             dgdbf += dgdb[self.f, ...]
-            dgdup += self.App.T * dgdb[self.p, ...]
+            dgdup += self.App.T @ dgdb[self.p, ...]
 
         return dgdA, dgdbf, dgdup
 
